@@ -13,17 +13,16 @@ theorem adder_shard_lt (s : S) (hG : Good s) (i : Nat) (a : Adder) (ha : s.adder
 
 /-- every adder that is neither finished nor waiting for a lock can take its step -/
 theorem adder_enabled (s : S) (hG : Good s) (hsz : 0 < s.size) (i : Nat) (a : Adder) (ha : s.adders[i]? = some a)
-    (h1 : a.pc ≠ .done) (h2 : a.pc ≠ .panicked) (h3 : a.pc ≠ .lock) (h4 : a.pc ≠ .lLock) :
+    (h1 : a.pc ≠ .done) (h3 : a.pc ≠ .lock) (h4 : a.pc ≠ .lLock) :
     stepAdder s i ≠ none := by
   have hlt := adder_shard_lt s hG i a ha
   have hlen := hG.st.s1.2.2
   simp only [stepAdder, ha]
-  cases hpc : a.pc <;> simp_all <;> (repeat' split) <;> simp_all
-  all_goals omega
+  cases hpc : a.pc <;> simp_all <;> (repeat' split) <;> (try simp_all) <;> (try omega)
 
-theorem worker_enabled (s : S) (hG : Good s) (hc : s.emptyAdds = 0) (hsz : 0 < s.size) (n e : Bool)
+theorem worker_enabled (s : S) (hG : Good s) (hsz : 0 < s.size) (n e : Bool)
     (h1 : s.wpc ≠ .idle) (h2 : s.wpc ≠ .lock) : stepWorker s n e ≠ none := by
-  obtain ⟨hR, _⟩ := hG.rp hc
+  have hR := hG.rg
   have hl := hG.st.s1
   have hr6 := hR.r6
   have hi := hG.ids.i0'
@@ -32,9 +31,54 @@ theorem worker_enabled (s : S) (hG : Good s) (hc : s.emptyAdds = 0) (hsz : 0 < s
   have := Nat.mod_lt (s.r + 1) hsz
   omega
 
-/-- in a quiescent state of an in-contract execution every Add call has returned (or panicked) -/
-theorem quiescent_adders (s : S) (hG : Good s) (hc : s.emptyAdds = 0) (hsz : 0 < s.size) (hq : QuiescentQ s)
-    (i : Nat) (a : Adder) (ha : s.adders[i]? = some a) : a.pc = .done ∨ a.pc = .panicked := by
+/-- the Close call inside a shard's critical section can take its step -/
+theorem closer_enabled (s : S) (hG : Good s) (sh : Nat) (h : 0 < cLk s sh) :
+    step s (.closer .read) ≠ none ∨ step s (.closer .unlock) ≠ none := by
+  simp only [cLk] at h
+  split at h
+  · rename_i hc
+    rcases hc.1 with hr | hu
+    · left
+      have hlt := hG.st.s3 (Or.inr (Or.inl hr))
+      have hlen := hG.st.s1.2.2
+      have hg : s.getters[s.cShard]? = some (s.getters[s.cShard]'(by omega)) := List.getElem?_eq_getElem (by omega)
+      simp [step, stepCloser, hr, hg]
+    · right
+      simp only [step, stepCloser, hu]
+      (repeat' split) <;> simp_all
+  · omega
+
+/-- a held shard lock has a holder that can move: no state with a held lock is quiescent -/
+theorem lock_free_of_quiescent (s : S) (hG : Good s) (hsz : 0 < s.size) (hq : QuiescentQ s) (sh v : Nat)
+    (hv : s.locks[sh]? = some v) : v = 0 := by
+  apply Classical.byContradiction
+  intro hv0
+  have hl1 := hG.lk.l1 sh v hv
+  by_cases ht : 0 < tally (aLk sh) s.adders
+  · obtain ⟨j, b, hb, hpos⟩ := exists_of_tally_pos _ ht
+    have hbpc : b.pc = .append ∨ b.pc = .unlock := by
+      simp only [aLk] at hpos
+      split at hpos
+      · rename_i h; exact h.2
+      · omega
+    have := adder_enabled s hG hsz j b hb (by cases hbpc <;> simp_all)
+      (by cases hbpc <;> simp_all) (by cases hbpc <;> simp_all)
+    exact this (hq (.adder j) rfl)
+  · by_cases hw : 0 < wLk s sh
+    · simp only [wLk] at hw
+      split at hw
+      · rename_i h
+        have := worker_enabled s hG hsz false false (by cases h.1 <;> simp_all) (by cases h.1 <;> simp_all)
+        exact this (hq (.wk false false) rfl)
+      · omega
+    · have hc : 0 < cLk s sh := by omega
+      rcases closer_enabled s hG sh hc with h | h
+      · exact h (hq (.closer .read) rfl)
+      · exact h (hq (.closer .unlock) rfl)
+
+/-- in a quiescent state every Add call has returned -/
+theorem quiescent_adders (s : S) (hG : Good s) (hsz : 0 < s.size) (hq : QuiescentQ s)
+    (i : Nat) (a : Adder) (ha : s.adders[i]? = some a) : a.pc = .done := by
   apply Classical.byContradiction
   intro hnd
   have hnone : stepAdder s i = none := hq (.adder i) rfl
@@ -47,24 +91,7 @@ theorem quiescent_adders (s : S) (hG : Good s) (hc : s.emptyAdds = 0) (hsz : 0 <
     have hv0 : v ≠ 0 := by
       intro h0
       simp [stepAdder, ha, hlock, hv, h0] at hnone
-    have hl1 := hG.lk.l1 a.shard v hv
-    by_cases ht : 0 < tally (aLk a.shard) s.adders
-    · obtain ⟨j, b, hb, hpos⟩ := exists_of_tally_pos _ ht
-      have hbpc : b.pc = .append ∨ b.pc = .unlock := by
-        simp only [aLk] at hpos
-        split at hpos
-        · rename_i h; exact h.2
-        · omega
-      have := adder_enabled s hG hsz j b hb (by cases hbpc <;> simp_all) (by cases hbpc <;> simp_all)
-        (by cases hbpc <;> simp_all) (by cases hbpc <;> simp_all)
-      exact this (hq (.adder j) rfl)
-    · have hw : 0 < wLk s a.shard := by omega
-      simp only [wLk] at hw
-      split at hw
-      · rename_i h
-        have := worker_enabled s hG hc hsz false false (by cases h.1 <;> simp_all) (by cases h.1 <;> simp_all)
-        exact this (hq (.wk false false) rfl)
-      · omega
+    exact hv0 (lock_free_of_quiescent s hG hsz hq a.shard v hv)
   · by_cases hll : a.pc = .lLock
     · have hv0 : s.listLock ≠ 0 := by
         intro h0
@@ -77,66 +104,84 @@ theorem quiescent_adders (s : S) (hG : Good s) (hc : s.emptyAdds = 0) (hsz : 0 <
         split at hpos
         · assumption
         · omega
-      have := adder_enabled s hG hsz j b hb (by cases hbpc <;> simp_all) (by cases hbpc <;> simp_all)
+      have := adder_enabled s hG hsz j b hb (by cases hbpc <;> simp_all)
         (by cases hbpc <;> simp_all) (by cases hbpc <;> simp_all)
       exact this (hq (.adder j) rfl)
-    · have := adder_enabled s hG hsz i a ha (fun h => hnd (Or.inl h)) (fun h => hnd (Or.inr h)) hlock hll
+    · have := adder_enabled s hG hsz i a ha hnd hlock hll
       exact this hnone
 
 /-- … and no loop worker exists -/
-theorem quiescent_worker (s : S) (hG : Good s) (hc : s.emptyAdds = 0) (hsz : 0 < s.size) (hq : QuiescentQ s) :
+theorem quiescent_worker (s : S) (hG : Good s) (hsz : 0 < s.size) (hq : QuiescentQ s) :
     s.wpc = .idle := by
   apply Classical.byContradiction
   intro hni
   have hnone : stepWorker s false false = none := hq (.wk false false) rfl
   by_cases hlock : s.wpc = .lock
-  · obtain ⟨hR, _⟩ := hG.rp hc
-    have hlt := hR.r6 (Or.inl hlock)
+  · have hlt := hG.rg.r6 (Or.inl hlock)
     have hv : ∃ v, s.locks[s.shared]? = some v := ⟨s.locks[s.shared]'(by have := hG.st.s1.2.1; omega),
       List.getElem?_eq_getElem (by have := hG.st.s1.2.1; omega)⟩
     obtain ⟨v, hv⟩ := hv
     have hv0 : v ≠ 0 := by
       intro h0
       simp [stepWorker, hlock, hv, h0] at hnone
-    have hl1 := hG.lk.l1 s.shared v hv
-    have hw : wLk s s.shared = 0 := by simp [wLk, hlock]
-    have ht : 0 < tally (aLk s.shared) s.adders := by omega
-    obtain ⟨j, b, hb, hpos⟩ := exists_of_tally_pos _ ht
-    have hbpc : b.pc = .append ∨ b.pc = .unlock := by
-      simp only [aLk] at hpos
-      split at hpos
-      · rename_i h; exact h.2
-      · omega
-    have := adder_enabled s hG hsz j b hb (by cases hbpc <;> simp_all) (by cases hbpc <;> simp_all)
-      (by cases hbpc <;> simp_all) (by cases hbpc <;> simp_all)
-    exact this (hq (.adder j) rfl)
-  · exact worker_enabled s hG hc hsz false false hni hlock hnone
+    exact hv0 (lock_free_of_quiescent s hG hsz hq s.shared v hv)
+  · exact worker_enabled s hG hsz false false hni hlock hnone
 
 theorem quiescentQ_of_quiescent (s : S) (hq : Quiescent s) : QuiescentQ s := by
   intro a ha
   apply hq
-  cases a <;> simp_all [Act.isQueue, Act.isEnv]
+  cases a <;> simp_all [Act.isWork, Act.isEnv]
 
 /-- … nor tail workers -/
 theorem quiescent_tails (s : S) (hq : QuiescentQ s) :
-    s.tRecheck = 0 ∧ s.tRun = 0 ∧ s.tSpawn = 0 ∧ s.tCas = 0 := by
+    s.tRecheck = 0 ∧ s.tRun = 0 ∧ s.tSpawn = 0 := by
   have h1 := hq (.tail .recheck) rfl
   have h2 := hq (.tail .run) rfl
   have h3 := hq (.tail .spawn) rfl
-  have h4 := hq (.tail .cas) rfl
-  simp only [step, stepTail] at h1 h2 h3 h4
-  refine ⟨?_, ?_, ?_, ?_⟩ <;> apply Classical.byContradiction <;> intro hne <;> simp [hne] at * <;>
+  simp only [step, stepTail] at h1 h2 h3
+  refine ⟨?_, ?_, ?_⟩ <;> apply Classical.byContradiction <;> intro hne <;> simp [hne] at * <;>
     (repeat' split at *) <;> simp_all
 
 /-- … nor Close calls in flight -/
-theorem quiescent_closers (s : S) (hq : Quiescent s) :
-    s.cCas = 0 ∧ s.cState = 0 ∧ s.cTrig = 0 ∧ s.cStore = 0 := by
+theorem quiescent_closers (s : S) (hG : Good s) (hsz : 0 < s.size) (hq : Quiescent s) :
+    s.cCas = 0 ∧ s.cwin = none := by
+  have hQ := quiescentQ_of_quiescent s hq
   have h5 := hq (.closer .cas) rfl
-  have h6 := hq (.closer .state) rfl
-  have h7 := hq (.closer .trig) rfl
-  have h8 := hq (.closer .store) rfl
-  simp only [step, stepCloser] at h5 h6 h7 h8
-  refine ⟨?_, ?_, ?_, ?_⟩ <;> apply Classical.byContradiction <;> intro hne <;> simp [hne] at * <;>
-    (repeat' split at *) <;> simp_all
+  have h6 := hq (.closer .lock) rfl
+  have h7 := hq (.closer .read) rfl
+  have h8 := hq (.closer .unlock) rfl
+  have h9 := hq (.closer .trig) rfl
+  have h10 := hq (.closer .store) rfl
+  have m5 := hG.ms.m5
+  constructor
+  · apply Classical.byContradiction; intro hne
+    simp only [step, stepCloser, hne] at h5
+    (repeat' split at h5) <;> simp_all
+  · cases hw : s.cwin with
+    | none => rfl
+    | some pc =>
+      exfalso
+      cases pc with
+      | cas => exact m5 hw
+      | lock =>
+        have hlt := hG.st.s3 (Or.inl hw)
+        have hv : ∃ v, s.locks[s.cShard]? = some v := ⟨s.locks[s.cShard]'(by have := hG.st.s1.2.1; omega),
+          List.getElem?_eq_getElem (by have := hG.st.s1.2.1; omega)⟩
+        obtain ⟨v, hv⟩ := hv
+        have := lock_free_of_quiescent s hG hsz hQ s.cShard v hv
+        subst this
+        simp [step, stepCloser, hw, hv] at h6
+      | read =>
+        rcases closer_enabled s hG s.cShard (by simp [cLk, hw]) with h | h
+        · exact h h7
+        · exact h h8
+      | unlock =>
+        rcases closer_enabled s hG s.cShard (by simp [cLk, hw]) with h | h
+        · exact h h7
+        · exact h h8
+      | trig =>
+        simp only [step, stepCloser, hw] at h9
+        (repeat' split at h9) <;> simp_all
+      | store => simp [step, stepCloser, hw] at h10
 
 end Netpoll.Shard
